@@ -747,3 +747,54 @@ Definition show_run (c : config) (sched : list nat) : pstr :=
   let '(c', tr) := run_segments RUN_FUEL sched c [] in
   join (S ",") (map (fun p => show_nat (fst p) ++ S "." ++ show_yp (snd p)) tr)
   ++ S ";" ++ join (S "|") (map show_thread (snd c')).
+
+(* compact rendering for the replay harness: one character per yield point *)
+Definition yp_code (y : ypoint) : pstr :=
+  match y with
+  | Y_fields_miss => S "a"
+  | Y_defaults_miss => S "b"
+  | Y_defaults_registered => S "c"
+  | Y_defaults_fill => S "d"
+  | Y_load_cfg_begin => S "e"
+  | Y_load_cfg_field => S "f"
+  | Y_load_cfg_store => S "g"
+  | Y_dump_cfg_begin => S "h"
+  | Y_dump_cfg_paths_read => S "i"
+  | Y_dump_cfg_field => S "j"
+  | Y_dump_cfg_flag => S "k"
+  | Y_loader_miss => S "l"
+  | Y_dumper_miss => S "m"
+  | Y_load_miss => S "n"
+  | Y_load_gen => S "o"
+  | Y_load_setattr => S "p"
+  | Y_load_store => S "q"
+  | Y_dump_miss => S "r"
+  | Y_dump_gen => S "s"
+  | Y_dump_cfg_done => S "t"
+  | Y_dump_setattr => S "u"
+  | Y_dump_store => S "v"
+  | Y_hook_scan_begin => S "w"
+  | Y_hook_scan_iter => S "x"
+  | Y_hook_scan_store => S "y"
+  | Y_key_cache_miss => S "z"
+  | Y_key_cache_store => S "A"
+  | Y_env_load_environ => S "B"
+  | Y_env_var_names => S "C"
+  | Y_env_cleaned => S "D"
+  | Y_v1_cfg_flag => S "E"
+  | Y_v1_load_aliases_read => S "F"
+  | Y_v1_load_store => S "G"
+  end.
+
+Definition all_ypoints : list ypoint :=
+  [Y_fields_miss; Y_defaults_miss; Y_defaults_registered; Y_defaults_fill; Y_load_cfg_begin; Y_load_cfg_field; Y_load_cfg_store; Y_dump_cfg_begin; Y_dump_cfg_paths_read; Y_dump_cfg_field; Y_dump_cfg_flag; Y_loader_miss; Y_dumper_miss; Y_load_miss; Y_load_gen; Y_load_setattr; Y_load_store; Y_dump_miss; Y_dump_gen; Y_dump_cfg_done; Y_dump_setattr; Y_dump_store; Y_hook_scan_begin; Y_hook_scan_iter; Y_hook_scan_store; Y_key_cache_miss; Y_key_cache_store; Y_env_load_environ; Y_env_var_names; Y_env_cleaned; Y_v1_cfg_flag; Y_v1_load_aliases_read; Y_v1_load_store].
+
+(* "name=code,name=code,..." : lets the harness check its own code table against this one *)
+Definition show_codes : pstr :=
+  join (S ",") (map (fun y => show_yp y ++ S "=" ++ yp_code y) all_ypoints).
+
+(* "<tid><code><tid><code>...;outcomes of thread 0|outcomes of thread 1|..." *)
+Definition show_run_c (c : config) (sched : list nat) : pstr :=
+  let '(c', tr) := run_segments RUN_FUEL sched c [] in
+  flat_map (fun p => show_nat (fst p) ++ yp_code (snd p)) tr
+  ++ S ";" ++ join (S "|") (map show_thread (snd c')).
